@@ -2,6 +2,7 @@ package props
 
 import (
 	"bytes"
+	"context"
 	"encoding/json"
 	"fmt"
 	"os"
@@ -171,10 +172,17 @@ func C11(tier string) {
 			iters = 200
 		}
 		t0 := time.Now()
-		fc := exec.Command(binRace, "free", name, fmt.Sprint(iters))
+		fctx, fcancel := context.WithTimeout(context.Background(), 15*time.Minute)
+		fc := exec.CommandContext(fctx, binRace, "free", name, fmt.Sprint(iters))
 		fc.Env = append(os.Environ(), "GORACE=halt_on_error=1")
 		fo, ferr := fc.CombinedOutput()
+		hung := fctx.Err() != nil
+		fcancel()
 		_ = t0
+		if hung {
+			r.Violate("free-hang/"+name, fmt.Sprintf("free-running scenario %q (no scheduler, plain goroutines, %d repetitions of calls that take milliseconds) did not return within 15 minutes: a call blocks forever", name, iters), map[string]interface{}{"scenario": name, "output": tail(fo, 1500)}, nil)
+			return
+		}
 		if bytes.Contains(fo, []byte("DATA RACE")) {
 			r.Violate("go-race/"+name, fmt.Sprintf("go's race detector on the free-running scenario %q: %s", name, firstRace(fo)), map[string]interface{}{"scenario": name, "output": tail(fo, 2500)}, nil)
 		} else if bytes.Contains(fo, []byte("VALUE-MISMATCH")) {
@@ -204,9 +212,16 @@ func C11(tier string) {
 					if strings.Contains(s.name, "goroutines at first use") {
 						iters = "40"
 					}
-					fc := exec.Command(binRace, "free", s.name, iters)
+					fctx, fcancel := context.WithTimeout(context.Background(), 15*time.Minute)
+					fc := exec.CommandContext(fctx, binRace, "free", s.name, iters)
 					fc.Env = append(os.Environ(), "GORACE=halt_on_error=1", "GOMAXPROCS="+procs)
 					fo, ferr := fc.CombinedOutput()
+					hung := fctx.Err() != nil
+					fcancel()
+					if hung {
+						r.Violate("free-hang/"+s.name, fmt.Sprintf("free-running scenario %q (GOMAXPROCS=%s) did not return within 15 minutes: a call blocks forever", s.name, procs), map[string]interface{}{"scenario": s.name, "output": tail(fo, 1500)}, nil)
+						break
+					}
 					if bytes.Contains(fo, []byte("DATA RACE")) {
 						r.Violate("go-race/"+s.name, fmt.Sprintf("go's race detector on the free-running scenario %q (GOMAXPROCS=%s): %s", s.name, procs, firstRace(fo)), map[string]interface{}{"scenario": s.name, "output": tail(fo, 2500)}, nil)
 					} else if ferr != nil || bytes.Contains(fo, []byte("VALUE-MISMATCH")) {
@@ -224,11 +239,26 @@ func C11(tier string) {
 				runFree(s.name)
 				return
 			}
-			cmd := exec.Command(bin, "explore", s.name, fmt.Sprint(boundFor(s)), fmt.Sprint(budget))
+			// the explorer enforces its own deadlines; the outer limit only catches an
+			// explorer that is stuck inside one execution (reported as a cap: the
+			// free-running pass below still decides the scenario)
+			outer := time.Duration(20*budget+300) * time.Second
+			if outer > 1900*time.Second {
+				outer = 1900 * time.Second
+			}
+			ctx, cancel := context.WithTimeout(context.Background(), outer)
+			cmd := exec.CommandContext(ctx, bin, "explore", s.name, fmt.Sprint(boundFor(s)), fmt.Sprint(budget))
 			cmd.Env = append(os.Environ(), "GOMAXPROCS=2")
 			var stderr bytes.Buffer
 			cmd.Stderr = &stderr
 			out, err := cmd.Output()
+			timedOut := ctx.Err() != nil
+			cancel()
+			if timedOut {
+				r.Cap(fmt.Sprintf("the explorer did not finish scenario %q within %v (runaway executions); free-running pass only", s.name, outer))
+				runFree(s.name)
+				return
+			}
 			var rep c11Report
 			if err != nil || json.Unmarshal(bytes.TrimSpace(out), &rep) != nil {
 				r.Violate("harness/explore/"+s.name, fmt.Sprintf("explorer crashed on scenario %q: %v\n%s", s.name, err, tail(stderr.Bytes(), 1500)), nil, nil)
